@@ -116,6 +116,7 @@ func main() {
 	write("Effects.v", genEffects())
 	genCode()
 	genLoops()
+	genParse()
 	for _, p := range fallbacks {
 		fmt.Println("fallback " + p)
 	}
